@@ -1366,6 +1366,36 @@ def sym_finditer(pattern, string):
         pos = end if end > pos else pos + 1
 
 
+def _sym_match_at(pattern, string, pos, full=False):
+    s = SymStr.lift(string)._chs
+    tree = sre_parse.parse(pattern)
+    ops = list(tree)
+    ngroups = tree.state.groups - 1
+    n = len(s)
+    k = (lambda p, g: (p, g) if p == n else None) if full else (lambda p, g: (p, g))
+    r = _match_here(ops, 0, s, pos, {}, k)
+    if r is None:
+        return None
+    end, g = r
+    return SymMatch(s, pos, end, g, ngroups)
+
+
+def sym_match(pattern, string):
+    return _sym_match_at(pattern, string, 0)
+
+
+def sym_fullmatch(pattern, string):
+    return _sym_match_at(pattern, string, 0, full=True)
+
+
+def sym_search(pattern, string):
+    for pos in range(len(SymStr.lift(string)) + 1):
+        m = _sym_match_at(pattern, string, pos)
+        if m is not None:
+            return m
+    return None
+
+
 def sym_findall(pattern, string):
     out = []
     for m in sym_finditer(pattern, string):
@@ -1753,6 +1783,10 @@ class RT:
             return sym_finditer(a[0], a[1])
         elif f is re.findall and isinstance(a[1], SymStr):
             return sym_findall(a[0], a[1])
+        elif f in (re.match, re.fullmatch, re.search) and len(a) >= 2 and isinstance(a[1], SymStr):
+            if len(a) > 2 or kw:
+                raise Unsupported("regex flags on a symbolic string")
+            return {re.match: sym_match, re.fullmatch: sym_fullmatch, re.search: sym_search}[f](a[0], a[1])
         elif f is print:
             return None
         elif f is max or f is min:
@@ -1805,6 +1839,15 @@ class RT:
 
     @staticmethod
     def callm(obj, name, *a, **kw):
+        if isinstance(obj, re.Pattern) and a and isinstance(a[0], SymStr):
+            # a compiled pattern applied to a symbolic string: same matcher as the module-level functions
+            if obj.flags & ~re.UNICODE or len(a) > 1 or kw:
+                raise Unsupported("compiled regex with flags / positions on a symbolic string")
+            fn = {'match': sym_match, 'fullmatch': sym_fullmatch, 'search': sym_search,
+                  'finditer': sym_finditer, 'findall': sym_findall}.get(name)
+            if fn is None:
+                raise Unsupported("re.Pattern.%s on a symbolic string" % name)
+            return fn(obj.pattern, a[0])
         if isinstance(obj, str):
             if any(is_sym(x) for x in a) or (name == 'join' and a and any(is_sym(x) for x in list(a[0]))) \
                or (name == 'format' and any(is_sym(x) for x in kw.values())):
